@@ -465,6 +465,19 @@ func rangePred(fr *frame, r *Term, rr runeRanges) value {
 	tt := fr.tt()
 	var ds []*Term
 	hi := umax(r) // syntactic upper bound of the rune term: prune the table
+	if p := fr.i.p; p != nil && hi > 0x7f && len(rr) > 8 {
+		// semantic upper bound under the path condition (at most 3 cheap
+		// queries): the pruned predicate is equivalent on this path
+		for _, b := range []uint64{0x7f, 0x7ff, 0xffff} {
+			if b >= hi {
+				break
+			}
+			if res, _ := p.check(tt.Mk(OUlt, sortBool, 0, tt.BV(32, b), r)); res == Unsat {
+				hi = b
+				break
+			}
+		}
+	}
 	for _, x := range rr {
 		if uint64(x[0]) > hi && hi < 1<<31 {
 			break
